@@ -14,6 +14,7 @@ import (
 	"strings"
 
 	"golang.org/x/tools/go/ssa"
+	"verif/engine/smt"
 )
 
 const (
@@ -992,7 +993,13 @@ func init() {
 			return i.pathError("chtimes", a[0], pick(r.errno, eNOENT))
 		}
 		i.fsMutate(fr, "chtimes", a[0])
+		// utimensat takes the instant as (sec, nsec) computed from UnixNano(): what reaches the
+		// kernel is the 64-bit nanosecond count, not the Time value
 		r.node.mtime = a[2]
+		if st, ok := i.isAbsTime(a[2]); ok {
+			lo := i.term(st[1])
+			r.node.mtime = structure{lower(i.ps.ctx.Bin(smt.OpBvAshr, lo, i.ps.ctx.Const(63, 64)), types.Uint64), st[1], i.absLoc()}
+		}
 		return iface{}
 	})
 	R("os.Chmod", func(i *interpreter, fr *frame, fn *ssa.Function, a []value) value {
